@@ -183,6 +183,7 @@ type execOpts struct {
 	MaxVisits int // per block per path (1 = simple paths)
 	MaxPaths  int
 	Pure      func(call ssa.CallInstruction) bool
+	NoInline  bool // do not inline single-block module functions into terms
 }
 
 type executor struct {
@@ -326,6 +327,7 @@ func (ex *executor) newTC(st *pstate) {
 		return st.locals[a]
 	}
 	tc.loadVer = func(k string) int { return st.stored[k] }
+	tc.inline = !ex.opts.NoInline
 	st.tc = tc
 }
 
